@@ -120,7 +120,12 @@ EvClearEnd == /\ Is("cle") /\ End(E.t, "clear")
 
 \* ---- emptyQueue
 DoneBefore(at) == {u \in Uids : ev[u].ee # 0 /\ ev[u].ee < at}
-AllConsumed(S) == \A u \in S : Consumed(u) \/ u \in mayClear
+\* takeEvent and clearEvents take effect at their critical section, not at their return: a call still in progress may already
+\* have taken one event (take) or all of them (clear)
+AllConsumed(S) == LET open == {u \in S : ~(Consumed(u) \/ u \in mayClear)}
+                      takes == Cardinality({t \in Threads : call[t].op = "take"})
+                      clearing == \E t \in Threads : call[t].op = "clear"
+                  IN clearing \/ Cardinality(open) <= takes
 EvEmptyBegin == Is("eqb") /\ Begin(E.t, "empty") /\ Same(ev, call') /\ UNCHANGED <<ev, mayClear, last, sel>>
 EvEmptyEnd == /\ Is("eqe") /\ call[E.t].op = "empty"
               /\ (E.r = 1 => AllConsumed(DoneBefore(call[E.t].at)))
